@@ -59,6 +59,9 @@ def shaped_sets(rng, count, big=False):
     add('high-bytes', [b'\x80', b'\xff', b'a\xff', b'\xff\x00', b'\x7f', b'\xfe\xff'])
     add('f5-shape', [b'ab', b'ac', b'dxyz'])
     add('long-key', [b'k' * 300, b'k' * 299 + b'j', b'z'])
+    # keys that occur inside other keys: handed over as windows of one buffer their suffix views alias (same start, other length)
+    add('windows-1', [b'yab', b'zq', b'zyabcb'])
+    add('windows-2', [b'ab', b'abcb', b'b', b'xab', b'xabcb', b'yabd'])
     add('long-suffixes', [b'alpha/0123456789abcdefghijklmnopqrstuvwxyz', b'beta/zyxwvutsrqponmlkjihgfedcba9876543210',
                           b'gamma/' + bytes(range(1, 60)), b'gamma/' + bytes(range(1, 40)) + b'!'])
     add('all-bytes-1', [bytes([b]) for b in range(256)])
@@ -379,10 +382,14 @@ def tail_cases(rng, count):
         ('one', [b'z']),
         ('none', []),
         ('long', [bytes(range(97, 123)) * 2, b'0123456789abcdefghijklmnopqrstuvwxyz', b'x' * 40, b'ab' * 17 + b'c']),
+        ('alias', [b'ab', b'abcb', b'abc', b'b', b'cb', b'abcbx']),
     ]
+    def win(c):      # the same case with every suffix handed over as a window of one shared buffer (views alias)
+        c2 = dict(c); c2['id'] = c['id'] + '-win'; c2['ops'] = ['WIN'] + c['ops']; return c2
     for name, sufs in fixed:
         for bin_ in (0, 1):
             out.append(mk('tail-%s-%d' % (name, bin_), bin_, [(s, 10 + i) for i, s in enumerate(sufs)], None or []))
+            out.append(win(out[-1]))
     out.append(mk('tail-nulbytes-1', 1, [(b'a\x00b', 1), (b'\x00', 2), (b'\x00\x00b', 3), (b'b', 4), (b'\x00b', 5)], []))
     out.append(mk('tail-emptysuffix', 0, [(b'', 1)], []))
     for c in range(count):
@@ -398,6 +405,7 @@ def tail_cases(rng, count):
             else: s = rand_word(rng, a, 1, 6)
             sufs.append((s, 100 + i))
         out.append(mk('tail-r%d' % c, bin_, sufs, []))
+        if c % 3 == 0: out.append(win(out[-1]))
     return out
 
 def tail_probes(sufs, pos, rng, bin_):
@@ -460,4 +468,12 @@ def malformed_lists(rng, tier):
                 else: L[i] = L[i][:rng.randrange(len(L[i]))]
                 if not all(L[x] < L[x + 1] for x in range(len(L) - 1)):
                     out.append(L)
+    # a node that already has every possible label (all 256, or all but a few) before the disorder / the repetition
+    full = [bytes([b]) for b in range(256)]
+    for pre in (b'', b'p', b'pq'):
+        base = [pre + k for k in full]
+        for tail in ([b'A'], [b'Ax'], [b'\xff'], [b'\xff\x00', b'\xff\x00'], [b'\x00'], [b'']):
+            out.append(base + [pre + t for t in tail])
+        out.append([pre + k for k in full[:255]] + [pre + b'\x10'])
+        out.append([pre + k + b'z' for k in full] + [pre + b'Mz'])
     return out
